@@ -192,6 +192,12 @@ End Static.
 Section Dynamic.
   Context {L F : Type}.
   Variable leqb : L -> L -> bool.
+  (* A thread may at any moment switch to other code, provided that code is acceptable from the locks it
+     holds ([jump_ok], instantiated with the static checker by the theorems). This covers what the tree-shaped
+     IR does not say by itself: a loop variable that denotes another object in the next iteration
+     (re-instantiation of the prefixes not currently locked), a call, the next request served by the same
+     goroutine. *)
+  Variable jump_ok : list (L * mode) -> list (stmt L F) -> Prop.
 
   Definition thread := (@lockset L * list (stmt L F))%type.
   Definition pool := list thread.
@@ -210,7 +216,7 @@ Section Dynamic.
 
   (* what a step does, for the trace-level statements *)
   Inductive event :=
-  | ETau | EAcq (m : L) (md : mode) | ERel (m : L) | ERd (f : F) | EWr (f : F) | EBlock (ch : string) | ERet.
+  | ETau | EJump | EAcq (m : L) (md : mode) | ERel (m : L) | ERd (f : F) | EWr (f : F) | EBlock (ch : string) | ERet.
 
   Inductive tstep (p : pool) : thread -> event -> thread -> Prop :=
   | TSkip ls k : tstep p (ls, Skip :: k) ETau (ls, k)
@@ -226,7 +232,8 @@ Section Dynamic.
   | TRd ls f k : tstep p (ls, Rd f :: k) (ERd f) (ls, k)
   | TWr ls f k : tstep p (ls, Wr f :: k) (EWr f) (ls, k)
   | TBlock ls c k : tstep p (ls, Block c :: k) (EBlock c) (ls, k)
-  | TRet ls k : tstep p (ls, Return :: k) ERet (ls, []).
+  | TRet ls k : tstep p (ls, Return :: k) ERet (ls, [])
+  | TJump ls k k' : jump_ok ls k' -> tstep p (ls, k) EJump (ls, k').
 
   Inductive step : pool -> nat -> event -> pool -> Prop :=
   | Step p i t e t' : nth_error p i = Some t -> tstep p t e t' -> step p i e (upd p i t').
